@@ -8,6 +8,7 @@ import (
 	"encoding/json"
 	"errors"
 	"fmt"
+	"net/http"
 	"reflect"
 	"strings"
 	"sync"
@@ -372,6 +373,8 @@ func DoPanic(kind int, tok string) {
 		panic(&Custom{A: 1, B: tok})
 	case 9:
 		panic(Stringer{tok})
+	case 10:
+		panic(http.ErrAbortHandler) // the sentinel net/http uses to abort a handler silently
 	}
 }
 
@@ -631,7 +634,8 @@ type Client struct {
 	Void            func(ctx context.Context, tok string)
 	Note            func(ctx context.Context, tok string) error `notify:"true"`
 	Boom            func(ctx context.Context, tok string, kind int) (string, error)
-	BoomNote        func(ctx context.Context, tok string, kind int) error `notify:"true"`
+	BoomR           func(ctx context.Context, tok string, kind int) (string, error) `retry:"true" rpc_method:"S.Boom"`
+	BoomNote        func(ctx context.Context, tok string, kind int) error           `notify:"true"`
 	BoomAfterCancel func(ctx context.Context, tok string, kind int) (string, error)
 	BoomBarrier     func(ctx context.Context, tok string, kind int, group string, n int) (string, error)
 	BoomSub         func(ctx context.Context, tok string, kind int) (<-chan Item, error)
